@@ -165,9 +165,8 @@ Proof. intros. split; [exact (write_all_keeps_new maxc ts sz d) | exact (is_dump
 Print Assumptions C19_dump_written.
 
 (* -------- event files -------- *)
-(* [ev_known_class o = false]: o is not a flush in a directory whose listing fails (finding F-C19b) *)
+(* every history, flushes in a directory whose listing fails ([ETickLF]) included *)
 Theorem C19_event_cap : forall (cap : N) (ops : list evop) (s : evstate),
-  Forall (fun o => ev_known_class o = false) ops ->
   ev_count s <= cap -> evq s <= Consts.event_queue_bound ->
   Forall (fun s' => ev_count s' <= cap /\ evq s' <= Consts.event_queue_bound) (ev_trace cap s ops).
 Proof. exact event_cap_history. Qed.
@@ -196,39 +195,26 @@ Print Assumptions C19_event_done_frozen.
 
 (* from an over-limit event directory: the logger never deletes (the reader does), and never adds *)
 Theorem C19_event_never_grows_over : forall (cap : N) (ops : list evop) (s : evstate),
-  Forall (fun o => ev_known_class o = false) ops ->
   evq s <= Consts.event_queue_bound ->
   Forall (fun s' => ev_count s' <= N.max (ev_count s) cap) (ev_trace cap s ops).
 Proof. exact event_never_grows_over. Qed.
 Print Assumptions C19_event_never_grows_over.
 
-(* -------- known findings: an entry of the directory that cannot be stat()-ed -------- *)
-(* F-C19a: get_log_files fails after the rename: archives pile up, the count bound fails.  The
-   history theorems above exclude exactly this class: compat admits OWriteLF only for OTHER loggers *)
-Theorem C19_log_known_class_excluded : forall (c : logcfg) (o : op),
-  compat c o -> log_known_class c o = false.
-Proof. exact compat_not_known. Qed.
-Print Assumptions C19_log_known_class_excluded.
+(* -------- a directory entry that cannot be stat()-ed (dangling link, link loop), sub-directories -------- *)
+(* Since /repo 9e49374 / 7e4ec27 (findings F-C19a, F-C19b, fixed): get_log_files ignores such entries,
+   so a logger's write there ([OWriteLF], admitted by compat like any own write: C19_log_count,
+   C19_log_size cover it) is the ordinary write; the event logger drops the drained events and never
+   touches the directory.  The behaviour before the repairs and why it broke both bounds:
+   DiskProofs.log_count_unstatable_refuted_before_fix, event_cap_unstatable_refuted_before_fix. *)
+Theorem C19_log_listing_failure_harmless : forall (c : logcfg) (ts : bytes) (lens : list N) (d : dir),
+  write_many_lf c ts lens d = write_many c ts lens d.
+Proof. exact write_many_lf_is_write_many. Qed.
+Print Assumptions C19_log_listing_failure_harmless.
 
-Theorem C19_log_count_unstatable_refuted :
-  exists c ops, wf_cfg c /\ Forall (fun o => log_known_class c o = true) ops /\
-                lmax_count c < lcount c (run [] ops).
-Proof. exact log_count_unstatable_refuted. Qed.
-Print Assumptions C19_log_count_unstatable_refuted.
-
-(* ... but the size bound survives it *)
-Theorem C19_log_size_survives_listing_failure : forall (c : logcfg) (ts : bytes) (lens : list N) (d : dir),
-  lmatch c (cur_name c) = true -> SInv c d -> SInv c (write_many_lf c ts lens d).
-Proof. exact write_many_lf_sinv. Qed.
-Print Assumptions C19_log_size_survives_listing_failure.
-
-(* F-C19b: get_files fails, the Err arm falls through to the write: the cap is not enforced *)
-Theorem C19_event_cap_unstatable_refuted :
-  exists cap ops s, ev_count s <= cap /\ evq s = 0 /\
-    Forall (fun o => ev_known_class o = true \/ exists n, o = EPush n) ops /\
-    cap < ev_count (last (ev_trace cap s ops) s).
-Proof. exact event_cap_unstatable_refuted. Qed.
-Print Assumptions C19_event_cap_unstatable_refuted.
+Theorem C19_event_listing_failure_fails_closed : forall (ts : bytes) (s : evstate),
+  evdir (ev_tick_lf ts s) = evdir s.
+Proof. exact ev_tick_lf_dir. Qed.
+Print Assumptions C19_event_listing_failure_fails_closed.
 
 (* the rule dumps fail closed: a failing listing skips the dump (ODumpLF is admitted by dcompat) *)
 Theorem C19_dump_listing_failure_skips : forall d : dir, step d ODumpLF = d.
